@@ -147,10 +147,13 @@ func VerifC02Book(v *verifrt.T) { c02history(v, nil) }
 // per-connection bookkeeping.
 func VerifC02Shapes(v *verifrt.T) {
 	shapes := [][]int{{0, 0, 1, 2}, {0, 0, 1, 1, 2}, {0, 1, 0, 1, 2}, {0, 0, 2, 1, 2}}
-	c02history(v, shapes[v.Choice(len(shapes), "shape")])
+	sh := v.Choice(len(shapes), "shape")
+	c02historyN(v, shapes[sh], sh == 0)
 }
 
-func c02history(v *verifrt.T, kinds []int) {
+func c02history(v *verifrt.T, kinds []int) { c02historyN(v, kinds, false) }
+
+func c02historyN(v *verifrt.T, kinds []int, nested bool) {
 	svc, ps, _ := c02env()
 	nconn := v.Bound("conns")
 	conns := make([]*Conn, nconn)
@@ -166,7 +169,13 @@ func c02history(v *verifrt.T, kinds []int) {
 	for i := 0; i < n; i++ {
 		var o c02op
 		if kinds != nil {
-			o = c02op{kind: kinds[i], who: 0, f: c02drawN(v, i, 3)} // contract + 2 levels: a/b and b/a collide in the XOR fold
+			// contract + 1 or 2 levels: a/b and b/a collide in the XOR fold, a/ and a/b/ nest in the index
+			// (the lengths vary in the first shape only)
+			flen := 3
+			if nested {
+				flen = 2 + v.Choice(2, "slen", i)
+			}
+			o = c02op{kind: kinds[i], who: 0, f: c02drawN(v, i, flen)}
 		} else {
 			o = c02op{kind: v.Choice(3, "kind", i), who: v.Choice(nconn, "who", i), f: c02draw(v, i)}
 			if i == 0 {
